@@ -890,10 +890,9 @@ class t2listing(object):
         while tablename:
             if tablename in self.skip_tables: self.skip_table(tablename)
             elif tablename in self._table: self.read_table(tablename)
-            else: # tables not present at first time step
-                next_tablename = self.next_tablename(last_tablename)
-                if next_tablename:
-                    self.skip_to_table(next_tablename, last_tablename, 1)
+            else: # tables not present at first time step: skip over just
+                # that table (so the one after it is still read)
+                self.skip_table(tablename)
             last_tablename = tablename
             tablename = self.next_table()
 
